@@ -18,7 +18,7 @@ from nutree import Tree, TypedTree
 from nutree.common import DictWrapper
 from nutree.fs import FileSystemEntry, FileSystemTree
 
-LABELS = ["a", "b", "c", "d", "e", "a1", "ä", "名☃"]
+LABELS = ["a", "b", "c", "d", "e", "a1", "ä", "名☃", 'q"t', "b\\s", "n\nl", " sp ", ""]
 PERSON_LABELS = {"a", "c", "e", "ä"}
 
 
